@@ -5,6 +5,7 @@
 # License: http://snmplabs.com/pyasn1/license.html
 #
 import os
+import sys
 
 from pyasn1 import debug
 from pyasn1 import error
@@ -1668,6 +1669,11 @@ class SingleItemDecoder(object):
                         length <<= 8
                         length |= oct2int(lengthOctet)
                     size += 1
+
+                    if length > sys.maxsize:
+                        # no stream can hold (or be asked for) that much
+                        raise error.PyAsn1Error(
+                            'Length %d is too large at %s' % (length, tagSet))
 
                 else:  # 128 means indefinite
                     length = -1
